@@ -102,6 +102,10 @@ def validate_te(chk, d, rng):
 
 
 # ------------------------------------------------------------------ independent oracle
+FLANKLESS = ('CircularOvalGroove', 'ConstrictedCircularOvalGroove', 'FlatOvalGroove', 'GothicGroove', 'Oval3RadiiGroove', 'RoundGroove',
+             'UpsetOvalGroove', 'EquivalentRibbedGroove')
+
+
 def retrace(g):
     """walk the contour from the groove centre using only the resolved radii and angles; return where the flank line, prolonged,
     meets the roll face (z at y = 0) and the point 4 reached"""
@@ -165,6 +169,11 @@ def consistency(chk, name, kw, g, label):
                 return chk.fail('given-reproduced', f"{name}{kw} ({label}): given {k} = {want!r}, the groove reports {have!r}", data)
     # a flank given by width / height / length is measured on the contour between z4 and z3
     fw, fh = g.z3 - g.z4, g.y4 - g.y3
+    # classes made of arcs only: the face-corner arc r1 joins the arc r2 directly (the derived flank angle is the common tangent there);
+    # a straight piece between them means the resolved angles do not solve the tangency conditions
+    if name in FLANKLESS and math.hypot(fw, fh) > 1e-7 * size:
+        return chk.fail('phantom-flank', f"{name}{kw} ({label}): the arcs r1 and r2 do not join: a straight flank of length {math.hypot(fw, fh):.6g} lies between "
+                        f"(z4, y4) and (z3, y3) although the class has no flank", data)
     for k, have in (('flank_width', fw), ('flank_height', fh), ('flank_length', math.hypot(fw, fh))):
         if k in kw and abs(have - kw[k]) > 1e-7 * size:
             return chk.fail('flank-reproduced', f"{name}{kw} ({label}): requested {k} = {kw[k]!r}, the flank between z4 and z3 measures {have!r}", data)
